@@ -28,7 +28,7 @@ def build_pool(seed, n):
     pool = list(gen_xonsh.XONSH_STMTS + gen_xonsh.PY_STMTS + gen_xonsh.UNTERMINATED)
     pool += rnd.sample(gen_py.SEEDS, 60)
     extra = ["x = p'/a' / pf'{b}'\n", "f!(a, b)\nwith! c:\n    d e\nx = 1\n", "$(echo! a b)\ny = 2\n", "x = f'{a!r:>{w}}' 'tail'\n", "range?\n", "f!(]\n", "with! x:\n", "f!(a,, b)\n",
-             "$(echo a.b?)\n", "$(lx?).split()\n", "x = [$(ax?) for a in $PATH]\n", "r = !(ls??)\n", "x = 'a' b'b'\n", "if a:\n  b\n c\n", "x = (\n", "x = '''a\n", "é = 'ü'\n", "try:\n    pass\nexcept* A:\n    pass\n", "type X[T] = list[T]\n"]
+             "$[echo!]\n", "x = $(timeit!)\nz = 1\n", "f!()\n", "f!(x)g!(y))\n", "f!(a, (b)\n", "with! q: \n", "$(echo a.b?)\n", "$(lx?).split()\n", "x = [$(ax?) for a in $PATH]\n", "r = !(ls??)\n", "x = 'a' b'b'\n", "if a:\n  b\n c\n", "x = (\n", "x = '''a\n", "é = 'ü'\n", "try:\n    pass\nexcept* A:\n    pass\n", "type X[T] = list[T]\n"]
     pool += extra
     # literal families that share tokenizer/parser lookup keys (quote style, prefix letters) but differ in the other dimensions:
     # any module-level cache keyed too coarsely makes their outcome depend on which one was seen first
